@@ -34,7 +34,7 @@
 (***************************************************************************)
 EXTENDS Integers, Sequences, FiniteSets
 
-KeyDom == 0 .. 9
+KeyDom == 0 .. 16
 NoTrav == [on |-> FALSE, credit |-> [k \in KeyDom |-> 0], stay |-> {}, yielded |-> {}, gone |-> {}]
 TravThreads == {0, 1, 2, 3, 9}
 SMInit == [m |-> <<>>, trav |-> [t \in TravThreads |-> NoTrav], excl |-> FALSE]
